@@ -3,6 +3,70 @@ on a real canopen.ObjectDictionary, every call logged with its outcome."""
 from __future__ import annotations
 
 
+def run_members(case):
+    """the same operations one level down: a free-standing ODRecord / ODArray and its members"""
+    import random
+    from canopen.objectdictionary import ODArray, ODRecord, ODVariable
+    rng = random.Random(case["seed"])
+    scope = case["scope"]
+    box = (ODRecord if scope == "rec" else ODArray)("Box", 0x2000)
+    subs = case.get("subs") or [0, 1, 2, 3, 255]
+    names = case.get("names") or ["alpha", "beta", "gamma", "delta"]
+    ids, keep, ev, nid = {}, [], [], [0]
+
+    def key():
+        if rng.random() < 0.6:
+            v = rng.choice(subs + [4, 16, 200, 256, 300])
+            return {"k": "i", "v": v}, v
+        v = rng.choice(names + ["nothing"])
+        return {"k": "s", "v": v}, v
+    ops = ["add", "add", "get", "get", "contains", "len", "iter"] + (["del", "del"] if scope == "rec" else [])
+    for _ in range(case["n"]):
+        op = rng.choice(ops)
+        if op == "add":
+            nid[0] += 1
+            sub, name = rng.choice(subs), rng.choice(names)
+            v = ODVariable(name, 0x2000, sub)
+            v.data_type = 0x5
+            ids[id(v)] = nid[0]
+            keep.append(v)
+            if scope == "rec" and rng.random() < 0.4:
+                box[sub] = v
+            else:
+                box.add_member(v)
+            assert v.parent is box
+            ev.append({"e": "add", "obj": {"id": nid[0], "index": sub, "name": name, "kind": "var", "subs": []}})
+        elif op == "del":
+            k, v = key()
+            try:
+                del box[v]
+                res = "ok"
+            except KeyError:
+                res = "KeyError"
+            ev.append({"e": "del", "key": k, "res": res})
+        elif op == "get":
+            k, v = key()
+            e = {"e": "get", "key": k, "id": -1, "name": ""}
+            try:
+                o = box[v]
+                e["res"], e["id"], e["name"] = "ok", ids.get(id(o), -2), o.name
+                if e["id"] == -2 and (o.subindex != v or o.index != 0x2000 or o.parent is not box or o.data_type != 0x5):
+                    e["name"] = "derived member with the wrong address / parent / type"
+            except KeyError:
+                e["res"] = "KeyError"
+            ev.append(e)
+        elif op == "contains":
+            k, v = key()
+            ev.append({"e": "contains", "key": k, "res": v in box})
+        elif op == "len":
+            ev.append({"e": "len", "res": len(box)})
+        else:
+            ev.append({"e": "iter", "res": list(box)})
+    for i, e in enumerate(ev):
+        e["n"] = i + 1
+    return {"ev": ev, "scope": scope}
+
+
 def run_case(case):
     import random
     import canopen
@@ -110,4 +174,4 @@ def run_case(case):
             ev.append(e)
     for i, e in enumerate(ev):
         e["n"] = i + 1
-    return {"ev": ev}
+    return {"ev": ev, "scope": "od"}
